@@ -121,6 +121,27 @@ func (c *Ctx) whereFirst(ins []ssa.Instruction) string {
 	return c.where(ins[0])
 }
 
+// BeforeG (K1/K2): every path from entry to a target passes an instruction
+// matching pre or leaves an If by an edge establishing one of the guards.
+func (c *Ctx) BeforeG(key, fname string, target, pre IM, guards []*Guard, min int, desc, why string) {
+	rule := "K1/K2 Before-or-Guarded"
+	fn := c.F(fname)
+	if !c.need(key, rule, desc, fn, fname) {
+		return
+	}
+	tg := Instrs(fn, target)
+	if len(tg) < min {
+		c.fail(key, rule, desc, why, fmt.Sprintf("only %d target site(s) matched in %s, expected >= %d", len(tg), fname, min), len(tg))
+		return
+	}
+	s := &Search{P: c.P, Fn: fn, Avoid: pre, Block: c.P.EdgesAsserting(guards...), Tgt: target}
+	if f := s.Run(); f != nil {
+		c.fail(key, rule, desc, why, fmt.Sprintf("target %s reachable without the required step and without the excusing branch; path %s", c.where(f.Instr), c.P.TraceString(f.Trace)), len(tg))
+		return
+	}
+	c.ok(key, rule, desc, len(tg))
+}
+
 // BeforeFrom (K1 variant): every path from an instruction matching from to a
 // target passes an instruction matching pre.
 func (c *Ctx) BeforeFrom(key, fname string, from, target, pre IM, min int, desc, why string) {
